@@ -107,11 +107,13 @@ def check_meta(pid, tier, seed, replay):
     # ---- jobs: (component, build, envname, env, start, count) ; corpus first
     streams = []   # (tagprefix, name, build, env, lines)
     missing_build = [n for n, (d, e, r) in built.items() if not (d and e)]
+    missing_build += [comp_name(c) + " (release)" for c in comps if want_release and c.get("release", True) and built[comp_name(c)][1] and not built[comp_name(c)][2]]
+    infra = []
     for path in sorted(glob.glob(os.path.join(VERIF, "corpus", pid, "*.case"))):
         head = open(path).read()
         m = re.search(r"^# component=(\S+) build=(\S+) env=(\S*)", head, re.M)
         if not m or m.group(1) not in built or not built[m.group(1)][1]:
-            log.append("corpus file %s skipped (component missing)" % os.path.basename(path))
+            infra.append("corpus file %s cannot be replayed (no '# component=.. build=.. env=..' line, or the component does not build)" % os.path.basename(path))
             continue
         name, build, env = m.group(1), m.group(2), parse_env(m.group(3))
         exe = built[name][2] if build == "release" and built[name][2] else built[name][1]
@@ -147,8 +149,12 @@ def check_meta(pid, tier, seed, replay):
         return (tag, name, bname, env, ls)
 
     with ThreadPoolExecutor(NPROC) as ex:
-        for r in ex.map(run_job, jobs):
+        for job, r in zip(jobs, ex.map(run_job, jobs)):
             streams.append(r)
+            got = sum(1 for l in r[4] if l.startswith("CASE "))
+            if got < job[6]:
+                notes = [l for l in r[4] if l.startswith("NOTE ")]
+                infra.append("component %s (%s, %s) ran %d of %d requested cases (%s)" % (job[0], job[1], job[2], got, job[6], "; ".join(notes[:2]) or "harness died before its first case"))
 
     # drivers (for tags / nontrivial / drift)
     def drive(st):
@@ -225,6 +231,10 @@ def check_meta(pid, tier, seed, replay):
         cid = sorted(failing, key=lambda c: len(cases.get(c, "")))[0]
         path = write_replay(cid, "the implementation's observation violates the property: %s" % fails(obs[cid], cases[cid]))
         violations.append("VIOLATION property=%s replay=%s" % (pid, path))
+    elif infra:
+        path = os.path.join(VERIF, "replays", "%s-infra.case" % pid)
+        open(path, "w").write("# the check could not run as configured; the property is not shown to hold on this run\n# %s\n" % "\n# ".join(infra))
+        violations.append("VIOLATION property=%s replay=%s no-failing-input-found" % (pid, path))
     elif missing_build:
         path = os.path.join(VERIF, "replays", "%s-build.case" % pid)
         open(path, "w").write("# components that do not build against the current tree: %s\n# %s\n" % (missing_build, "\n# ".join(log[-6:]).replace("\n", "\n# ")))
@@ -261,6 +271,7 @@ def check_meta(pid, tier, seed, replay):
             "theorems": proof.get("theorems", []),
             "open_statements": cfg.get("open_statements", []),
             "proof_problems": proof["problems"],
+            "infrastructure_problems": infra,
             "evaluations": evaluations,
             "distinct_nontrivial": len(nontrivial),
             "rule": cfg.get("rule", ""),
